@@ -75,3 +75,75 @@ package cl
 //@ func cl.(*Expt).Call
 //@   property C05
 //@   exact
+
+// ---------------------------------------------------------------------------
+// C01 / C07, family T: ghost evaluation trace ($n events; $ek kind, $eslot slot
+// of the own argument list, $escope scope, $eres result; $exit = an exit
+// marker (return-from / go) was returned by an evaluation and not consumed).
+
+//@ func cl.(*When).Call
+//@   property C01 C07
+//@   option eval-once
+//@   option forward-exits
+//@   ensures test-first: $n >= 1 && $eslot[0] == 0 && $escope[0] == s
+//@   ensures body-selected: (truthy($eres[0]) && !$exit) ==> ($n == len(args) && (forall k :: (0 <= k && k < $n) ==> ($eslot[k] == k && $escope[k] == s)))
+//@   ensures body-skipped: (!truthy($eres[0])) ==> ($n == 1 && result == nil)
+//@   ensures exit-stops: $exit ==> (result == $eres[$n - 1] && is_exit($eres[$n - 1]) && (forall k :: (0 <= k && k < $n - 1) ==> !is_exit($eres[k])))
+//@   ensures value: (truthy($eres[0]) && !$exit && len(args) > 1) ==> result == $eres[$n - 1]
+//@   ensures value-empty: (truthy($eres[0]) && !$exit && len(args) == 1) ==> result == nil
+//@   loop pos<len(args): invariant trace: $n == pos && truthy($eres[0]) && (forall k :: (0 <= k && k < $n) ==> ($eslot[k] == k && $escope[k] == s && !is_exit($eres[k]))) && (pos > 1 ==> result == $eres[$n - 1]) && (pos == 1 ==> result == nil)
+
+// evaluated slots are exactly 0..$n-1 of the own argument list, in order, in scope sc
+//@ define slots_in_order(sc) = forall k :: (0 <= k && k < $n) ==> ($eslot[k] == k && $escope[k] == sc)
+// if an event returned an exit marker it was the last one and it is the result
+//@ define exit_stops(r) = $exit ==> ($n >= 1 && r == $eres[$n - 1] && is_exit($eres[$n - 1]))
+//@ define no_exit_before(m) = forall k :: (0 <= k && k < m) ==> !is_exit($eres[k])
+
+//@ func cl.(*Unless).Call
+//@   property C01 C07
+//@   option eval-once
+//@   option forward-exits
+//@   ensures test-first: $n >= 1 && $eslot[0] == 0 && $escope[0] == s
+//@   ensures body-selected: (!truthy($eres[0]) && !$exit) ==> ($n == len(args) && slots_in_order(s))
+//@   ensures body-skipped: (truthy($eres[0]) && !$exit) ==> ($n == 1 && result == nil)
+//@   ensures value: (!truthy($eres[0]) && !$exit && len(args) > 1) ==> result == $eres[$n - 1]
+//@   ensures exit-stops: exit_stops(result) && no_exit_before($n - 1)
+//@   loop pos<len(args): invariant trace: $n == pos && !truthy($eres[0]) && slots_in_order(s) && no_exit_before($n) && (pos > 1 ==> result == $eres[$n - 1]) && (pos == 1 ==> result == nil)
+
+//@ func cl.(*If).Call
+//@   property C01 C07
+//@   option eval-once
+//@   option forward-exits
+//@   ensures test-first: $n >= 1 && $eslot[0] == 0 && $escope[0] == s
+//@   ensures then: (truthy($eres[0]) && !is_exit($eres[0])) ==> ($n == 2 && $eslot[1] == 1 && $escope[1] == s && result == $eres[1])
+//@   ensures else: (!truthy($eres[0]) && len(args) == 3) ==> ($n == 2 && $eslot[1] == 2 && $escope[1] == s && result == $eres[1])
+//@   ensures no-else: (!truthy($eres[0]) && len(args) == 2) ==> ($n == 1 && result == nil)
+//@   ensures exit-stops: exit_stops(result) && no_exit_before($n - 1)
+
+//@ func cl.(*And).Call
+//@   property C01 C07
+//@   option eval-once
+//@   option forward-exits
+//@   ensures order: slots_in_order(s)
+//@   ensures stops-at-first-nil: forall k :: (0 <= k && k < $n - 1) ==> truthy($eres[k])
+//@   ensures all-or-nil: $n == len(args) || ($n >= 1 && (!truthy($eres[$n - 1]) || is_exit($eres[$n - 1])))
+//@   ensures value: $n >= 1 ==> result == $eres[$n - 1]
+//@   ensures exit-stops: exit_stops(result) && no_exit_before($n - 1)
+//@   loop rangeindex: invariant trace: $n == rangeindex + 1 && slots_in_order(s) && no_exit_before($n) && (forall k :: (0 <= k && k < $n) ==> truthy($eres[k])) && ($n >= 1 ==> result == $eres[$n - 1])
+
+//@ func cl.(*Or).Call
+//@   property C01 C07
+//@   option eval-once
+//@   option forward-exits
+//@   ensures order: slots_in_order(s)
+//@   ensures stops-at-first-true: forall k :: (0 <= k && k < $n - 1) ==> !truthy($eres[k])
+//@   ensures all-or-true: $n == len(args) || ($n >= 1 && truthy($eres[$n - 1]))
+//@   ensures value: $n >= 1 ==> result == $eres[$n - 1]
+//@   ensures exit-stops: exit_stops(result) && no_exit_before($n - 1)
+//@   loop rangeindex: invariant trace: $n == rangeindex + 1 && slots_in_order(s) && (forall k :: (0 <= k && k < $n) ==> !truthy($eres[k])) && ($n >= 1 ==> result == $eres[$n - 1])
+
+//@ func cl.(*Let).Call
+//@   property C01 C07
+//@   option forward-exits
+//@   ensures body-order: forall k :: (0 <= k && k < $n && $eslot[k] >= 0) ==> ($eslot[k] >= 1 && $escope[k] != s)
+//@   ensures exit-stops: exit_stops(result)
